@@ -20,27 +20,27 @@ import TrompModel.Tie.Loops
 namespace Tromp.Tie
 open Tromp.Ring
 
-theorem ring_unlink_tie (this : Ptr) (h : Heap) : Cxx.ring_unlink this h = unlink this h := rfl
+theorem ring_unlink_tie (this : Ptr) (h : Heap Ptr) : Cxx.ring_unlink this h = unlink this h := rfl
 
-theorem ring_elem_dtor_tie (this : Ptr) (h : Heap) : Cxx.ring_elem_dtor this h = unlink this h := rfl
+theorem ring_elem_dtor_tie (this : Ptr) (h : Heap Ptr) : Cxx.ring_elem_dtor this h = unlink this h := rfl
 
-theorem ring_push_front_tie (hd t : Ptr) (h : Heap) : Cxx.ring_push_front hd t h = pushFront hd t h := rfl
+theorem ring_push_front_tie (hd t : Ptr) (h : Heap Ptr) : Cxx.ring_push_front hd t h = pushFront hd t h := rfl
 
-theorem ring_push_back_tie (hd t : Ptr) (h : Heap) : Cxx.ring_push_back hd t h = pushBack hd t h := rfl
+theorem ring_push_back_tie (hd t : Ptr) (h : Heap Ptr) : Cxx.ring_push_back hd t h = pushBack hd t h := rfl
 
-theorem ring_move_assign_tie (this r : Ptr) (h : Heap) : Cxx.ring_move_assign this r h = moveAssign this r h := by
+theorem ring_move_assign_tie (this r : Ptr) (h : Heap Ptr) : Cxx.ring_move_assign this r h = moveAssign this r h := by
   unfold Cxx.ring_move_assign moveAssign
   by_cases e : this = r
   · simp [e, Id.run]; rfl
   · simp [e, Id.run, ring_unlink_tie]; rfl
 
-theorem ring_begin_tie (hd : Ptr) (h : Heap) : Cxx.ring_begin hd h = h.next hd := rfl
-theorem ring_end_tie (hd : Ptr) (h : Heap) : Cxx.ring_end hd h = hd := rfl
-theorem ring_iter_incr_tie (p : Ptr) (h : Heap) : Cxx.ring_iter_incr p h = h.next p := rfl
-theorem ring_is_linked_tie (x : Ptr) (h : Heap) : Cxx.ring_is_linked x h = isLinked x h := rfl
+theorem ring_begin_tie (hd : Ptr) (h : Heap Ptr) : Cxx.ring_begin hd h = h.next hd := rfl
+theorem ring_end_tie (hd : Ptr) (h : Heap Ptr) : Cxx.ring_end hd h = hd := rfl
+theorem ring_iter_incr_tie (p : Ptr) (h : Heap Ptr) : Cxx.ring_iter_incr p h = h.next p := rfl
+theorem ring_is_linked_tie (x : Ptr) (h : Heap Ptr) : Cxx.ring_is_linked x h = isLinked x h := rfl
 
 /-- the loop of `~list()` — fetch the element, advance the iterator, *then* destroy the element — is `disposeLoop`. -/
-theorem ring_list_dtor_tie (hd : Ptr) (fuel : Nat) (h : Heap) :
+theorem ring_list_dtor_tie (hd : Ptr) (fuel : Nat) (h : Heap Ptr) :
     Cxx.ring_list_dtor hd fuel h = disposeLoop hd fuel (h.next hd) h := by
   unfold Cxx.ring_list_dtor
   simp only [Id.run, forIn_eq_runLoop, bind, pure, ring_begin_tie, ring_end_tie, ring_iter_incr_tie, ring_unlink_tie]
@@ -56,7 +56,7 @@ theorem ring_list_dtor_tie (hd : Ptr) (fuel : Nat) (h : Heap) :
       simp only [c, e, ↓reduceIte]; exact ih _ _
 
 /-- `~list()` as a whole: the loop, then the base-class destructor `~list_elem()` of the list object itself. -/
-theorem ring_list_dtor_whole (hd : Ptr) (fuel : Nat) (h : Heap) :
+theorem ring_list_dtor_whole (hd : Ptr) (fuel : Nat) (h : Heap Ptr) :
     Cxx.ring_elem_dtor hd (Cxx.ring_list_dtor hd fuel h) = listDtor hd fuel h := by
   rw [ring_elem_dtor_tie, ring_list_dtor_tie]; rfl
 
